@@ -126,6 +126,9 @@ def build_component(priors, kind, coords, idx, rng):
         ind = int(idx[0]) if rng.random() < 0.5 else [int(idx[0])]
     else:
         ind = [int(i) for i in idx]
+        fi = rng.random()
+        if fi < 0.3:          # the indices as another iterable than a list, in the order given
+            ind = tuple(ind) if fi < 0.15 else {i: None for i in ind}.keys()     # (numpy integers are refused by the library's validation: python ints only)
     if kind == "G":
         return priors.GaussianPrior(mean=conv([c.mu for c in coords]), sigma=conv([c.sigma for c in coords]), variable_indices=ind)
     if kind == "E":
@@ -483,7 +486,7 @@ def run_job(job, rec):
                 return d
 
             jp.sample = recording_sample
-            n_s = int(rng.integers(1, 60))
+            n_s = int(rng.integers(1, 60)) if rng.random() < 0.75 else int(rng.integers(200, 700))   # (hundreds of draws: selection routines change their strategy with size)
             n_g = int(rng.integers(1, n_s + 1))
             guesses = guarded(post.generate_initial_guesses, n_guesses=n_g, prior_samples=n_s)
             del jp.sample
